@@ -174,8 +174,10 @@ def tau_leap_unit(S, E, pre_tau, lim_mode="default", conserve=False, asserts=("w
 
 
 # ---- the loop ------------------------------------------------------------------------
-def jump_unit(spec, exact, K, pre_tau=False, tag="C04", asserts=("walk",), lim_mode="default", max_paths=6000, x0_kind="sym"):
-    """real SimulateOde._jump / solve_stochast unwound K steps on a real model with compiled V and rates"""
+def jump_unit(spec, exact, K, pre_tau=False, tag="C04", asserts=("walk",), lim_mode="default", max_paths=6000, x0_kind="sym", t0_kind="sym"):
+    """real SimulateOde._jump / solve_stochast unwound K steps on a real model with compiled V and rates.
+    t0_kind: 'sym' (a symbolic real standing for a numpy float64) | 'pyint' | 'pyfloat' -- the initial time as a plain
+    Python number (initial_values = (x0, 0)), a type, not a value, so it is enumerated"""
     from pygom.model import simulate as simmod
     from pygom.model import stochastic_simulation as ss
     from .c01 import built
@@ -187,16 +189,17 @@ def jump_unit(spec, exact, K, pre_tau=False, tag="C04", asserts=("walk",), lim_m
         if th:
             m.parameters = th
         m._stochasticParam = None
-        t0 = c.real("t0")
+        t0 = c.real("t0") if t0_kind == "sym" else (0 if t0_kind == "pyint" else 0.0)
         T = c.real("T")
         c.assume(T > t0)
+        t0_given = (lambda v: v) if (c.mode == "sym" or t0_kind != "sym") else np.float64
         if x0_kind == "sym":
             x0 = arr(c, [c.intreal("x%d" % i, lo=0, hi=6) for i in range(S)])
-            m.initial_values = (x0, t0) if c.mode == "sym" else (np.array(x0, float), np.float64(t0))
+            m.initial_values = (x0, t0) if c.mode == "sym" else (np.array(x0, float), t0_given(t0))
         else:
             # typed initial state: a concrete integer-dtype array, as users write it (np.array([5, 2]))
             x0 = np.array([5, 2, 3][:S], dtype=np.int64)
-            m.initial_values = (x0, t0) if c.mode == "sym" else (x0, np.float64(t0))
+            m.initial_values = (x0, t0_given(t0))
         if c.mode == "sym":
             m._x0 = x0
         m.pre_tau = c.real("pre_tau", lo=0, lo_strict=True) if pre_tau else None
@@ -295,7 +298,7 @@ def jump_unit(spec, exact, K, pre_tau=False, tag="C04", asserts=("walk",), lim_m
                 # an illegal proposal ended the run: legal only if limits are in play
                 c.note("exit: illegal step")
                 c.prove(any(l != (None, None) for l in lims), "loop leaves early only at the horizon, when nothing can fire, or on an illegal step")
-    return Unit("%s.jump[%s,exact=%s,K=%d,pre_tau=%s,lims=%s%s]" % (tag, spec.name, exact, K, pre_tau, lim_mode, "" if x0_kind == "sym" else ",x0=" + x0_kind), h,
+    return Unit("%s.jump[%s,exact=%s,K=%d,pre_tau=%s,lims=%s%s]" % (tag, spec.name, exact, K, pre_tau, lim_mode, ("" if x0_kind == "sym" else ",x0=" + x0_kind) + ("" if t0_kind == "sym" else ",t0=" + t0_kind)), h,
                 bounds={"states": S, "events": E, "unwind_steps": K, "x0": "integers 0..6 (symbolic)" if x0_kind == "sym" else "concrete int64 array [5,2,3][:S]", "parameters": "symbolic > 0",
                         "horizon": "symbolic", "tau_leap_rate_statistics": "havoc per step" if not exact else "n/a"},
                 program=spec.describe(), max_paths=max_paths)
@@ -426,6 +429,9 @@ class C04(Check):
         sp22 = [s for s in shape_specs() if s.name == "shape_2x2"][0]
         us.append(jump_unit(sp22, True, 2, x0_kind="int64"))
         us.append(jump_unit(sp22, False, 2, x0_kind="int64"))
+        # the initial time written as a plain Python number
+        us.append(jump_unit(sp22, True, 2, t0_kind="pyint"))
+        us.append(jump_unit(sp22, False, 2, x0_kind="int64", t0_kind="pyfloat"))
         us.append(jump_unit(expr.by_name("ode_mixed"), False, 2, pre_tau=True, x0_kind="int64"))
         us.append(helper_contract_unit(1, 1))
         us.append(helper_contract_unit(2, 1))
